@@ -8,7 +8,14 @@
    body is, was or will again be invoked with) are arguments of the reference for that node; and no body is invoked more often
    than the reference invokes it. Limitation: a body that does not suspend (inline / immediate mode) is invoked and finished
    inside one loop step, so its arguments never rest in a frame between steps; for those the statement is decided by the
-   oracle on the implementation and by the correspondence of traces only. FALSE in general (known findings D9, D11, D12, D13, D17). *)
+   oracle on the implementation and by the correspondence of traces only. FALSE in general (known findings D9, D11, D12, D13, D17).
+   Kind G (ALL programs, EVERY schedule incl. cancellation; Proofs/ArgsAll.v; on the history, so inline bodies are included):
+   C03_arguments_come_from_the_declared_inputs / C03_default_arguments_come_from_the_declared_inputs -- the keyword arguments of
+   every body invocation and of every get_default call are what _get_node_kwargs builds from the node's declared dependencies
+   (one entry per incoming edge that names a parameter, the caller's input_kwargs for the input node, additional_data for a start
+   node), and every value in them was stored before the call as the result of the declared source (for a switch parameter: of
+   the case recorded for the switch) or is None. Not said there: that the value is the source's FINAL value (false in general:
+   D9) and that it is not a failure object (false in general: D11). *)
 From MLPE Require Import Engine.Run Spec.Dataflow Proofs.ExecLemmas Explore.StateEq Explore.Erase Explore.Explorer Explore.Safe
      Catalogue.Programs Catalogue.Certified Proofs.CertLemmas.
 
@@ -94,3 +101,20 @@ Example C03_plain_arguments_not_vacuous :
   over st = false /\ main_done st = false /\
   existsb (fun o => match o with OStart 3 _ (_ :: _ :: _) => true | _ => false end) (st_trace st) = true.
 Proof. vm_compute. repeat split; reflexivity. Qed.
+
+(* ---- kind G: all programs, all schedules ------------------------------------------------------------------------------------ *)
+From MLPE Require Import Proofs.Micro Proofs.SwitchAll Proofs.ArgsAll.
+
+Theorem C03_arguments_come_from_the_declared_inputs :
+  forall P st, reachable P st ->
+    forall a b i k kw, st_trace st = a ++ OStart i k kw :: b ->
+      exists n val ad, real_index n = i /\ gen_kwargs P n val ad = Some kw /\ forall p v, val p = Some v -> prov P b p v.
+Proof. exact arguments_come_from_the_declared_inputs_all_programs. Qed.
+Print Assumptions C03_arguments_come_from_the_declared_inputs.
+
+Theorem C03_default_arguments_come_from_the_declared_inputs :
+  forall P st, reachable P st ->
+    forall a b i kw, st_trace st = a ++ ODefault i kw :: b ->
+      exists n val ad, real_index n = i /\ gen_kwargs P n val ad = Some kw /\ forall p v, val p = Some v -> prov P b p v.
+Proof. exact default_arguments_come_from_the_declared_inputs_all_programs. Qed.
+Print Assumptions C03_default_arguments_come_from_the_declared_inputs.
